@@ -1,6 +1,7 @@
-(* C06 - Make, Ninja and compile_commands.json describe the same build: the flag-assembly core.
-   Everything else about C06 (targets, dependency relation, whole argv, cwd, environment) is decided by the
-   system-level translation validation in harness/c06.py. *)
+(* C06 - Make, Ninja and compile_commands.json describe the same build: the flag-assembly core, the dependency
+   relation and targets of the two build files, and (last part) the argument list of a compile / link step across
+   all three emitters.  Working directory, environment and the steps outside the modelled domain are decided by
+   the system-level translation validation in harness/c06.py. *)
 From BFG Require Import Base.Chars Shell.PosixQuote Shell.Sh Make.MakeWrite Make.MakeRead
   Ninja.NinjaWrite Ninja.NinjaRead Graph.BackendAgree Graph.Steps Graph.Emit Graph.EmitProofs.
 
@@ -82,3 +83,205 @@ Example ex06_targets : forall fx,
     In (mkM [NStamp 10] [NF 1; NF 2] [NDir 1] true false) rs /\
     In (mkNB [NPhony] true [] [] []) (emit_ninja ex06_script).
 Proof. intros fx. eexists. split; [reflexivity|]. repeat split; cbn; tauto. Qed.
+
+(* ====================================================================== the third emitter: compile_commands.json
+   Graph/CompDB.v models CompDB._stringify / _stringify_arguments / append and the handlers compdb_compile /
+   compdb_link, and the command line make_compile / make_link resp. ninja_compile / ninja_link write for the same
+   step (tie: harness/c06.py stages W:compdb ...).  Modelled domain of the agreement theorems: tool command, always
+   flags, global and per-target flags (and libraries) are plain words; the source is a srcdir path, outputs and link
+   inputs are builddir paths.  Documented differences, all explicit in the statements:
+   - Ninja only: the colour flag ([color], appended to the always flags);
+   - path spelling: a srcdir path is the value of srcdir + separator + suffix in all three (Make and Ninja get it by
+     expanding their srcdir variable, compdb from env.base_dirs); a builddir path is its suffix in compdb
+     (os.path.relpath to the build directory, [bld_spelling]), the target name in Make ($@) and Ninja (${out}); the link
+     inputs, which Make passes in shell position, get ./ in front of a suffix without separator ([make_bld_spelling]);
+   - depfile handling: -MMD -MF out.d is part of all three command lines; Make's second recipe line (depfixer) and
+     Ninja's depfile / deps bindings are not commands of the step.
+   Guards: no single quote in the names Make puts between quotes (open finding C04-make-squote-autovar); builddir is an
+   absolute normalised directory other than the root and the suffixes are normalised ([bld_rel_ok], C12). *)
+From BFG Require Import Path.PathAlg Path.PathAlgProofs Graph.CompDB Graph.CompDBProofs Make.MakeProofs.
+From Coq Require Import String.
+
+(* Make: the words sh obtains from the define body line, expanded in the variable context of the recipe (tool variable and
+   flag variable assigned from the written texts as in C06_make_flags, $< and $@ bound by Make), are the compdb arguments *)
+Theorem C06_compdb_agrees_make : forall uw us d v (ve : vars) cname gname fname cmd always color g t isfx osfx deps
+    text_cc text_g text_t body,
+  name_ok cname = true -> name_ok gname = true -> name_ok fname = true ->
+  write_value uw us (words_items cmd) SynShell = Some text_cc ->
+  write_value uw us (words_items g) SynShell = Some text_g ->
+  write_value uw us (make_target_items gname t) SynShell = Some text_t ->
+  write_each uw us (mk_compile_items cname fname always deps) SynShell = Some body ->
+  assign_value v text_cc = Some (ve cname) ->
+  (exists vg, assign_value v text_g = Some vg /\ assign_value (upd v gname vg) text_t = Some (ve fname)) ->
+  ve [c_lt] = base_join (d_src d) isfx -> ve [c_at] = osfx ->
+  no_sq (base_join (d_src d) isfx) = true -> no_sq osfx = true ->
+  bld_rel_ok d osfx -> (deps = true -> bld_rel_ok d (osfx ++ s_dotd)) ->
+  let st := mkCompile cmd always color (wds g) (wds t) (RSrc, isfx) osfx deps in
+  let W := compile_words cmd always g t (base_join (d_src d) isfx) osfx (if deps then Some (osfx ++ s_dotd) else None) in
+  exists line, expand ve body = Some line /\ sh_words uw line = Some W /\ arguments d (compile_args false st) = Some W.
+Proof. exact compdb_agrees_make_compile. Qed.
+Print Assumptions C06_compdb_agrees_make.
+
+(* Ninja: the rule command, lexed and evaluated in the edge scope (tool and flag bindings evaluated from the written
+   texts as in C06_ninja_flags, in / out as Ninja escapes them), is split by sh into the compdb arguments of a Ninja
+   configuration - which contain the colour flag *)
+Theorem C06_compdb_agrees_ninja : forall uw d (env0 env : nenv) cname gname fname cmd always color g t isfx osfx deps
+    text_cc text_t body,
+  name_ok cname = true -> name_ok gname = true -> name_ok fname = true ->
+  nwrite_each uw (nwords_items cmd) NShell = Some text_cc ->
+  nwrite_each uw (ninja_edge_items gname t) NShell = Some text_t ->
+  nwrite_each uw (nj_compile_items cname fname (always ++ color) deps) NShell = Some body ->
+  env0 gname = join uw g ->
+  option_map (neval env0) (lex_value text_cc) = Some (env cname) ->
+  option_map (neval env0) (lex_value text_t) = Some (env fname) ->
+  env s_in = nj_in_out [base_join (d_src d) isfx] -> env s_out = nj_in_out [osfx] ->
+  base_join (d_src d) isfx <> [] -> osfx <> [] ->
+  bld_rel_ok d osfx -> (deps = true -> bld_rel_ok d (osfx ++ s_dotd)) ->
+  let st := mkCompile cmd always color (wds g) (wds t) (RSrc, isfx) osfx deps in
+  let W := compile_words cmd (always ++ color) g t (base_join (d_src d) isfx) osfx
+             (if deps then Some (osfx ++ s_dotd) else None) in
+  exists ts, lex_value body = Some ts /\ sh_words uw (neval env ts) = Some W /\
+             arguments d (compile_args true st) = Some W.
+Proof. exact compdb_agrees_ninja_compile. Qed.
+Print Assumptions C06_compdb_agrees_ninja.
+
+(* link steps (cc linker): flags, inputs, libraries, output in the order of CcLinker._call.  Make passes the inputs as
+   the first call parameter, spelled with ./ where the suffix has no separator; compdb spells them without *)
+Theorem C06_compdb_agrees_make_link : forall uw us d v (ve : vars) cname gname fname glname lname cmd always g t gl tl
+    fsfxs ul osfx text_cc text_g text_t text_gl text_tl body,
+  name_ok cname = true -> name_ok gname = true -> name_ok fname = true -> name_ok glname = true -> name_ok lname = true ->
+  write_value uw us (words_items cmd) SynShell = Some text_cc ->
+  write_value uw us (words_items g) SynShell = Some text_g ->
+  write_value uw us (make_target_items gname t) SynShell = Some text_t ->
+  write_value uw us (words_items gl) SynShell = Some text_gl ->
+  write_value uw us (make_target_items glname tl) SynShell = Some text_tl ->
+  write_each uw us (mk_link_items cname fname lname always) SynShell = Some body ->
+  assign_value v text_cc = Some (ve cname) ->
+  (exists vg, assign_value v text_g = Some vg /\ assign_value (upd v gname vg) text_t = Some (ve fname)) ->
+  (exists vg, assign_value v text_gl = Some vg /\ assign_value (upd v glname vg) text_tl = Some (ve lname)) ->
+  sh_words uw (ve [c_one]) = Some (map make_bld_spelling fsfxs) ->
+  ve [c_at] = osfx -> no_sq osfx = true ->
+  bld_rel_ok d osfx -> Forall (bld_rel_ok d) fsfxs ->
+  let st := mkLink false cmd always (wds g) (wds t) (wds gl) (wds tl) (map (fun s => (RBld, s)) fsfxs) ul osfx in
+  exists line, expand ve body = Some line /\
+    sh_words uw line = Some (link_words cmd always g t (map make_bld_spelling fsfxs) gl tl osfx) /\
+    arguments d (link_args st) = Some (link_words cmd always g t fsfxs gl tl osfx).
+Proof. exact compdb_agrees_make_link. Qed.
+Print Assumptions C06_compdb_agrees_make_link.
+
+Theorem C06_compdb_agrees_ninja_link : forall uw d (env0 env : nenv) cname gname fname glname lname cmd always g t gl tl
+    fsfxs ul osfx text_cc text_t text_tl body,
+  name_ok cname = true -> name_ok gname = true -> name_ok fname = true -> name_ok glname = true -> name_ok lname = true ->
+  nwrite_each uw (nwords_items cmd) NShell = Some text_cc ->
+  nwrite_each uw (ninja_edge_items gname t) NShell = Some text_t ->
+  nwrite_each uw (ninja_edge_items glname tl) NShell = Some text_tl ->
+  nwrite_each uw (nj_link_items cname fname lname always) NShell = Some body ->
+  env0 gname = join uw g -> env0 glname = join uw gl ->
+  option_map (neval env0) (lex_value text_cc) = Some (env cname) ->
+  option_map (neval env0) (lex_value text_t) = Some (env fname) ->
+  option_map (neval env0) (lex_value text_tl) = Some (env lname) ->
+  env s_in = nj_in_out fsfxs -> env s_out = nj_in_out [osfx] ->
+  osfx <> [] -> bld_rel_ok d osfx -> Forall (bld_rel_ok d) fsfxs ->
+  let st := mkLink false cmd always (wds g) (wds t) (wds gl) (wds tl) (map (fun s => (RBld, s)) fsfxs) ul osfx in
+  let W := link_words cmd always g t fsfxs gl tl osfx in
+  exists ts, lex_value body = Some ts /\ sh_words uw (neval env ts) = Some W /\ arguments d (link_args st) = Some W.
+Proof. exact compdb_agrees_ninja_link. Qed.
+Print Assumptions C06_compdb_agrees_ninja_link.
+
+(* the spelling of a builddir path in compdb is its suffix; Make / Ninja in shell position write it with at most ./ in front *)
+Theorem C06_compdb_build_spelling : forall d sfx, bld_rel_ok d sfx ->
+  stringify_path d RBld sfx = sfx /\
+  (make_bld_spelling sfx = sfx \/ make_bld_spelling sfx = c_dot :: c_slash :: sfx).
+Proof. exact build_spelling. Qed.
+Print Assumptions C06_compdb_build_spelling.
+
+(* a path inside a flag (-I and a srcdir directory): the compdb string is the word sh reads from the quoted unit Make and
+   Ninja write, once the srcdir reference is replaced by the same directory (C01_path_unit) *)
+Theorem C06_compdb_path_unit : forall uw d sfx, no_sq (d_src d) = true -> d_src d <> [] -> sfx <> [] ->
+  sh_words uw (path_text (d_src d) (c_slash :: sfx)) = Some [stringify_path d RSrc sfx].
+Proof. exact compdb_path_unit. Qed.
+Print Assumptions C06_compdb_path_unit.
+
+(* the command form (a shell_list, as copy_file and build_step hand over) is the sh-joined arguments form *)
+Theorem C06_compdb_command_words : forall uw d args ws,
+  arguments d args = Some ws -> command uw d args = Some (join uw ws) /\ sh_words uw (join uw ws) = Some ws.
+Proof. exact command_words. Qed.
+Print Assumptions C06_compdb_command_words.
+
+(* outside the domain: a literal object among the arguments is not a JSON string - json.dump raises TypeError when
+   compile_commands.json is written.  No builtin puts one into compile or link arguments (build scripts cannot create
+   safe_str.literal), so this is a boundary of the model, not a finding. *)
+Theorem C06_compdb_literal_refuted : exists d args, arguments d args = None.
+Proof. exact arguments_literal_refuted. Qed.
+Print Assumptions C06_compdb_literal_refuted.
+
+(* ---- non-vacuity: a step with blanks, quotes, dollar signs and hashes in flags and file names, computed end to end ---- *)
+Definition ex06_nu : char -> bool := fun _ => false.
+Definition ex06_d : cdirs := mkDirs (STR "/s r/c$") (STR "/b d").
+Definition ex06_cmd : list str := [STR "ccache"; STR "my cc"].
+Definition ex06_g : list str := [STR "-DG=""a b"""; STR "-Dh#x"].
+Definition ex06_t : list str := [STR "-DT=it's"; STR "-Dx=$y"; STR "-I"; STR "z w"].
+Definition ex06_isfx : str := STR "sub dir/l$ib.c".
+Definition ex06_osfx : str := STR "sub dir/lib.int/l$ib.o".
+Definition ex06_W (color : list str) : list str :=
+  compile_words ex06_cmd ([STR "-x"; STR "c"] ++ color) ex06_g ex06_t (STR "/s r/c$/sub dir/l$ib.c") ex06_osfx
+    (Some (STR "sub dir/lib.int/l$ib.o.d")).
+
+Example ex06_bld_ok : bld_rel_ok ex06_d ex06_osfx /\ bld_rel_ok ex06_d (ex06_osfx ++ s_dotd).
+Proof.
+  split.
+  - exists [STR "b d"], [STR "sub dir"; STR "lib.int"; STR "l$ib.o"].
+    repeat split; try discriminate; apply normalb_ok; reflexivity.
+  - exists [STR "b d"], [STR "sub dir"; STR "lib.int"; STR "l$ib.o.d"].
+    repeat split; try discriminate; apply normalb_ok; reflexivity.
+Qed.
+
+(* Make: texts written, variables assigned, body expanded, sh: the compdb arguments *)
+Example ex06_compdb_make :
+  let nu := ex06_nu in
+  let st := mkCompile ex06_cmd [STR "-x"; STR "c"] [STR "-fdiagnostics-color"] (wds ex06_g) (wds ex06_t) (RSrc, ex06_isfx) ex06_osfx true in
+  match make_compile_texts nu nu (STR "CC") (STR "GLOBAL_CFLAGS") (STR "CFLAGS") st with
+  | [Some tcc; Some tg; Some ttv; Some body] =>
+    match assign_value (fun _ => []) tcc, assign_value (fun _ => []) tg with
+    | Some vcc, Some vg =>
+      match assign_value (upd (fun _ => []) (STR "GLOBAL_CFLAGS") vg) ttv with
+      | Some vt =>
+        let ve := recipe_env (fun _ => []) [(STR "CC", vcc); (STR "CFLAGS", vt);
+                                            ([c_lt], STR "/s r/c$/sub dir/l$ib.c"); ([c_at], ex06_osfx)] in
+        match expand ve body with Some line => sh_words nu line | None => None end
+      | None => None
+      end
+    | _, _ => None
+    end
+  | _ => None
+  end = arguments ex06_d (compile_args false st) /\
+  arguments ex06_d (compile_args false st) = Some (ex06_W []).
+Proof. split; vm_compute; reflexivity. Qed.
+
+Example ex06_compdb_ninja :
+  let nu := ex06_nu in
+  let st := mkCompile ex06_cmd [STR "-x"; STR "c"] [STR "-fdiagnostics-color"] (wds ex06_g) (wds ex06_t) (RSrc, ex06_isfx) ex06_osfx true in
+  match ninja_compile_texts nu (STR "cc") (STR "global_cflags") (STR "cflags") st with
+  | [Some tcc; Some tg; Some ttv; Some body] =>
+    match lex_value tcc, lex_value tg, lex_value ttv, lex_value body with
+    | Some kcc, Some kg, Some kt, Some kb =>
+      let env0 := nenv_upd (fun _ => []) [(STR "global_cflags", neval (fun _ => []) kg)] in
+      let env := nenv_upd env0 [(STR "cc", neval env0 kcc); (STR "cflags", neval env0 kt);
+                                (s_in, nj_in_out [STR "/s r/c$/sub dir/l$ib.c"]); (s_out, nj_in_out [ex06_osfx])] in
+      sh_words nu (neval env kb)
+    | _, _, _, _ => None
+    end
+  | _ => None
+  end = arguments ex06_d (compile_args true st) /\
+  arguments ex06_d (compile_args true st) = Some (ex06_W [STR "-fdiagnostics-color"]).
+Proof. split; vm_compute; reflexivity. Qed.
+
+(* link: Make spells the slash-free input ./main.o, compdb main.o; nothing else differs *)
+Example ex06_compdb_link :
+  let d := ex06_d in
+  let st := mkLink false [STR "cc"] [] (wds [STR "-L/x y"]) (wds [STR "-Wl,-rpath,$ORIGIN/sub dir"]) (wds [STR "-lm"]) (wds [STR "-l:a b"])
+                   [(RBld, STR "main.o"); (RBld, STR "p.int/x y.o")] (RBld, []) (STR "prog") in
+  arguments d (link_args st) =
+    Some [STR "cc"; STR "-L/x y"; STR "-Wl,-rpath,$ORIGIN/sub dir"; STR "main.o"; STR "p.int/x y.o"; STR "-lm"; STR "-l:a b"; STR "-o"; STR "prog"] /\
+  map make_bld_spelling [STR "main.o"; STR "p.int/x y.o"] = [STR "./main.o"; STR "p.int/x y.o"].
+Proof. split; vm_compute; reflexivity. Qed.
